@@ -104,6 +104,20 @@ def cases(tier, seed):
         for kind in fix_inv.PSF_KINDS:
             for ol in LEN3_MENU:
                 yield [[5, 5], [3, 3], bits, kind, 2, ol, seed]
+    # --- other units (data and noise scaled together by 3e3 / 1e-5: absolute thresholds on noise-weighted terms must not matter) and
+    # --- the same linear-object instance used twice in one list
+    REPEAT = [
+        [["func", "rectA", "func@same"], [False, True, False]],
+        [["rectA", "funcS", "rectA@same"], [True, False, True]],
+        [["funcS", "del", "funcS@same", "rectB"], [False, True, False, True]],
+    ]
+    for bits in fam3:
+        for kind in fix_inv.PSF_KINDS:
+            for units in (3.0e3, 1.0e-5):
+                for ol in (SMALL_MENU[1], SMALL_MENU[3], LEN3_MENU[0]):
+                    yield [[5, 5], [3, 3], bits, kind, 1 + bits % 2, ol, seed, units]
+            for ol in REPEAT:
+                yield [[5, 5], [3, 3], bits, kind, 1, ol, seed]
     # --- non-square PSFs
     for frame, ks in (([5, 3], [3, 1]), ([3, 5], [1, 3]), ([5, 4], [3, 1]), ([7, 5], [5, 3]), ([5, 7], [3, 5]), ([3, 3], [1, 1]), ([7, 7], [5, 5])):
         famn = mask_family(tuple(frame), tuple(ks), tier, 3 if tier == "quick" else 99)
@@ -116,14 +130,27 @@ def cases(tier, seed):
 
 
 def _build(case):
-    frame, ks, bits, kind, sub, (kinds, regs), seed = case
-    fx = fix_inv.make_dataset(frame, ks, bits, psf_kind=kind, seed=seed, sub=sub)
-    objs = [fix_inv.make_obj(fx, k, reg=r, seed=seed) for k, r in zip(kinds, regs)]
+    frame, ks, bits, kind, sub, (kinds, regs), seed = case[:7]
+    units = case[7] if len(case) > 7 else 1.0
+    fx = fix_inv.make_dataset(frame, ks, bits, psf_kind=kind, seed=seed, sub=sub, units=units)
+    made = {}
+    objs = []
+    for k, r in zip(kinds, regs):
+        if k.endswith("@same"):  # the SAME linear-object instance appearing again in the list
+            objs.append(made[k[:-5]])
+        else:
+            made[k] = fix_inv.make_obj(fx, k, reg=r, seed=seed)
+            objs.append(made[k])
     return fx, objs
 
 
 def run_case(case):
-    frame, ks, bits, kind, sub, (kinds, regs), seed = case
+    frame, ks, bits, kind, sub, (kinds, regs), seed = case[:7]
+    # cases that only judge D, F and the blurred mapping matrix: (i) a list that contains the same object instance twice (the
+    # per-object dictionaries of the library are keyed by object, so per-object model data is undefined for such a list); (ii) the
+    # dataset in other units, where F+H is conditioned very differently and the solution is not comparable at fixed tolerances
+    normal_eq_only = any(k.endswith("@same") for k in kinds) or (len(case) > 7 and case[7] != 1.0)
+    kinds = [k[:-5] if k.endswith("@same") else k for k in kinds]
     v = V(ID)
     fx, objs0 = _build(case)
     aa = fx["aa"]
@@ -144,8 +171,8 @@ def run_case(case):
         off += wdt
     F_ref = F_ref.copy()
     F_ref[unreg, unreg] += diag
-    scaleD = max(1.0, np.abs(D_ref).max())
-    scaleF = max(1.0, np.abs(F_ref).max())
+    scaleD = float(np.abs(D_ref).max()) or 1.0  # relative to the magnitude of the quantity itself (datasets come in any units)
+    scaleF = float(np.abs(F_ref).max()) or 1.0
     all_func = all(k.startswith("func") for k in kinds)
     tagsfx = ":signed-psf" if kind == "signed" else ""
     tagsfx += ":nonsquare-psf" if ks[0] != ks[1] else ""
@@ -193,6 +220,8 @@ def run_case(case):
             except Exception as e:
                 v.fail("%s:operated_mapping_matrix:exception" % fam, repr(e))
             # reconstruction and mapped data (unconstrained solver), all objects regularized or ridge 1e-3 keeps it SPD
+            if normal_eq_only:
+                continue
             try:
                 s = np.array(inv.reconstruction, dtype=float)
                 mrd = np.array(inv.mapped_reconstructed_data, dtype=float)
@@ -210,7 +239,7 @@ def run_case(case):
                 results[name] = None
     # ---- a second dataset that shares the convolver / grids / w-tilde tables of the first but holds DIFFERENT data (the
     # DatasetInterface route used when an image has something subtracted before it is inverted): D must follow the new data
-    if not all_func:
+    if not all_func and not normal_eq_only:
         fx3, objs3 = _build(case)
         ds3 = fx3["ds"]
         first = aa.Inversion(dataset=ds3, linear_obj_list=objs3, settings=fix_inv.settings(aa, True, diag=diag))
